@@ -2,7 +2,7 @@
    family.  Statements only; proofs are in Proofs/ErrorsFacts.v and
    Proofs/ErrorsWitness.v. *)
 From Coq Require Import NArith ZArith List String Bool.
-From V Require Import Base.UString Base.Json Model.Errors Gen.C17Classes Proofs.ErrorsFacts Proofs.ErrorsWitness.
+From V Require Import Base.UString Base.Json Model.Errors Gen.C17Classes Proofs.ErrorsFacts Proofs.ErrorsWitness Proofs.ErrorsRefine.
 Import ListNotations.
 
 (* _check_property: whatever Exception subclass clean() raises (known class or
@@ -87,6 +87,22 @@ Proof.
   apply ok_parse; [apply ok_clean_any|exact HR].
 Qed.
 Print Assumptions family_only_evaluated_model.
+
+(* the outcome set evaluated in the correspondence run (set-valued cleaner) covers the model under every
+   black-box behaviour of the cleaners: each outcome is in the evaluated set, or is an InvalidValueError
+   subclass re-raised by the wrapper where the evaluated set has InvalidValueError *)
+Theorem evaluated_model_covers_every_cleaner :
+  forall (V : variant) (R : registry) (cl : blackbox) (dec : decoder) (x : jvalue) (ac : bool) (version : option ustring),
+  (forall n v e, cl n v = CleanRaise e -> is_exception e = true) ->
+  forall r, In r (parse V R (clean_via cl) dec x ac version) ->
+  exists r', In r' (parse V R clean_any dec x ac version) /\
+             (r = r' \/ exists e, r = Exc e S_lib /\ subclass e K_InvalidValueError = true /\
+                                  r' = Exc (Known K_InvalidValueError) S_lib).
+Proof.
+  intros V R cl dec x ac version Hcl r Hr.
+  exact (cov_parse V R _ _ (cov_clean_via_any cl Hcl) dec x ac version r Hr).
+Qed.
+Print Assumptions evaluated_model_covers_every_cleaner.
 
 (* the class tables generated from the live classes contain no hook the model does not know *)
 Theorem live_registry_known : reg_known live = true /\ forallb (fun kc => cls_known (snd kc)) all_classes = true.
